@@ -285,12 +285,19 @@ def check_equiv(spec, text, targets=None):
 
 
 def twin_refuted(spec, text):
-    """the same query against a deliberately wrong reference must be sat"""
+    """the same query against a deliberately wrong reference must be sat (the last Einsum that has an index variable loses the
+    last value of its last index variable; every output from there on is compared)"""
+    from .dense import index_vars
+    cand = [i for i, e in enumerate(spec["exprs"]) if index_vars(e)]
+    if not cand:
+        return None
+    k = cand[-1]
     try:
         env, P, rec = execute(text, spec)
-        ref = reference(spec, P, drop_last_of=len(spec["exprs"]) - 1)
+        ref = reference(spec, P, drop_last_of=k)
         obls, nz = [], []
-        compare_output(env, spec, ref[outputs_of(spec)[-1]], outputs_of(spec)[-1], obls, nz)
+        for t in dict.fromkeys(outputs_of(spec)[k:]):
+            compare_output(env, spec, ref[t], t, obls, nz)
     except (NotModelled, RefError, ModelError):
         return None
     r, _, dt = solve_any([o.cond for o in obls])
